@@ -43,6 +43,11 @@ def obligations(tier):
                 Ob(f"C02.basic.intcol.n{n}r{rpc}", "X", "(int|slice, int) keys: scalar / 1-d results equal numpy's", FUNCS_ARR,
                    bounds=b + "; all row ints -n..n-1, all column ints -m..m-1", harness="harness/h_image.py", func="basic_intcol_ok", params=params, timeout=to),
             ]
+    for n, rpc in ((3, 2), (3, 3)) if q else ((3, 2), (3, 3), (5, 2), (5, 4)):
+        obs.append(Ob(f"C02.seq.n{n}r{rpc}", "X", "several selections on one opened image in sequence (row, row, leading slice, full image, first row again): each equals numpy "
+                      "on the full image - a selection leaves nothing behind that changes a later one", FUNCS_ARR,
+                      bounds=f"n={n}, m={m}, rpc={rpc}; forall rows k1, k2 in 0..n-1, stop in 0..n, H>0", harness="harness/h_image.py", func="basic_seq_ok",
+                      params={"n": n, "m": m, "rpc": rpc, "steps": steps}, timeout=to))
     obs.append(Ob("C02.adapter", "X", "the wrapper declares exactly the indexing support the backend implements: keys reach Array.__getitem__ only through "
                   "explicit_indexing_adapter(key, header shape, IndexingSupport.BASIC, raw method under the lock)",
                   ["ceos_alos2.xarray:LazilyIndexedWrapper.__getitem__", "ceos_alos2.xarray:LazilyIndexedWrapper._raw_indexing_method"],
